@@ -373,7 +373,10 @@ def native_sample(payload):
             out *= 1 + (-52.0) * (ff - c[0])
         return out * ((T / 288.15) ** 3.3) / ((P / 101325.0) ** 1.02)
     for _ in range(n):
-        c = sorted(rnd.uniform(0.05, 3.0) for _ in range(4))
+        # certification fuel flows of the four modes are well separated (7 / 30 / 85 / 100 % thrust): successive ratio >= 1.15
+        c = [rnd.uniform(0.05, 0.5)]
+        for _k in range(3):
+            c.append(c[-1] * rnd.uniform(1.15, 3.0))
         if rnd.random() < 0.2:
             c[1] = c[0]
         if rnd.random() < 0.2:
@@ -385,8 +388,11 @@ def native_sample(payload):
         got = EI_HCCO(ffs, xe, cc, T, P)
         got2 = EI_HCCO(ffs, ThrustModeValues(*[3.0 * v for v in x]), cc, T, P)
         for f, g, g2 in zip(ffs, got, got2):
+            try:
+                want = ref_hcco(float(f), x, c, T, P)
+            except OverflowError:
+                continue        # the documented fit itself leaves the float range for this sample
             cases += 1
-            want = ref_hcco(float(f), x, c, T, P)
             if not math.isfinite(g) or g < -1e-12:
                 viol.append(dict(what='EI_HCCO finite and non-negative', input=dict(ff=float(f), x=x, c=c), observed=float(g)))
             elif not math.isclose(g, want, rel_tol=1e-9, abs_tol=1e-12):
